@@ -304,6 +304,12 @@ impl Sim {
                     .collect(),
             },
         };
+        if sel.repeat > 0 {
+            let once = out.clone();
+            for _ in 0..sel.repeat {
+                out.extend(once.iter().cloned());
+            }
+        }
         out.extend(sel.extra.iter().cloned());
         for i in 0..sel.filler {
             out.push(format!("{}", 7_000_000u64 + i as u64));
